@@ -17,7 +17,10 @@ def obligations(tier):
                   remove=('getLabels_', 'getCentroids', 'randInt', 'KMeansppCenters', 'MDC', 'MaxDis', 'MaxDis_Fast', 'HierarchicalClustering', 'KMeansRandomGroupsCV', 'KMeansJumpMethod'), stubs=('sym_bits_env.c',),
                   unwindset=('@clustering|KMeans|while\\s*\\(\\s*shouldStop|103',), unwind_goal=('KMeans.unwind',), object_bits=12))
     obs.append(Ob(id='kmeans/shouldstop', harness='C18/kmeans_cap.c', tus=T, defs={'HP_WHICH': 1}, engine='bits', unwind=6, timeout=300, clause='k-means returns after a bounded number of iterations', stubs=('sym_bits_env.c',)))
-    from . import C19
+    from . import C19, C03
+    for o in C03.obligations(tier):
+        if o.id.startswith('lv_start/'):
+            o.clause = 'PLS: a constant response is not chosen as start vector (which would make the iteration NaN)'; obs.append(o)
     for o in C19.obligations(tier):
         if o.id.startswith('simplex/'):
             o.clause = 'simplex returns after a bounded number of iterations'; obs.append(o)
